@@ -1,4 +1,4 @@
-CONSTANTS Variant = "NoSignerRaw"
+CONSTANTS Variant = "NoSignerRaw"  ALens = {"natural"}  Slim = FALSE
 SPECIFICATION Spec
 INVARIANTS TypeOK SignedPartsSame MandatoryAttrsOnce RefuseOnlyWhenJustified
 CHECK_DEADLOCK FALSE
